@@ -32,8 +32,9 @@ func H_C14_TwoAuctions() {
 		nd.Assume(!B.base.EndTimes[0].After(now))
 		nd.Assume(!C.base.EndTimes[0].After(now)) // opens and settles in this block
 		e.ResetCalls()
+		m0 := e.EventMark()
 		err := e.K.BeginBlocker(e.Ctx)
-		return c14Result{e: e, err: err, calls: e.Calls(), st: B}
+		return c14Result{e: e, err: err, calls: e.Calls(), st: B, m0: m0, m1: e.EventMark()}
 	}
 	first := run()
 	reps := 1
@@ -44,6 +45,7 @@ func H_C14_TwoAuctions() {
 	for r := 0; r < reps; r++ {
 		second := run()
 		nd.Assert("C14.two-auctions-same-result", (first.err == nil) == (second.err == nil))
+		nd.Assert("C14.two-auctions-same-ordered-events", env.SameEvents(first.e, first.m0, first.m1, second.e, second.m0, second.m1))
 		nd.Assert("C14.two-auctions-same-number-of-transfers", len(first.calls) == len(second.calls))
 		if len(first.calls) == len(second.calls) {
 			for i := range first.calls {
@@ -94,10 +96,11 @@ func H_C14_SetHooks() {
 }
 
 type c14Result struct {
-	e     *env.Env
-	err   error
-	calls []model.Call
-	st    *aState
+	e      *env.Env
+	err    error
+	calls  []model.Call
+	st     *aState
+	m0, m1 int // event marks around the block
 }
 
 // H_C14_Settle: self-composition. The same settlement block is executed twice
@@ -122,8 +125,9 @@ func H_C14_Settle() {
 			nd.Assume(st.batchA.MaxExtendedRound == 0)
 		}
 		e.ResetCalls()
+		m0 := e.EventMark()
 		err := e.K.BeginBlocker(e.Ctx)
-		return c14Result{e: e, err: err, calls: e.Calls(), st: st}
+		return c14Result{e: e, err: err, calls: e.Calls(), st: st, m0: m0, m1: e.EventMark()}
 	}
 	first := run()
 	// every bidder owns a bid, so that the per-bidder maps have several entries
@@ -146,6 +150,7 @@ func H_C14_Settle() {
 	for r := 0; r < reps; r++ {
 		second := run()
 		nd.Assert("C14.same-result", (first.err == nil) == (second.err == nil))
+		nd.Assert("C14.same-ordered-events", env.SameEvents(first.e, first.m0, first.m1, second.e, second.m0, second.m1))
 		nd.Assert("C14.same-number-of-transfers", len(first.calls) == len(second.calls))
 		if len(first.calls) == len(second.calls) {
 			for i := range first.calls {
